@@ -77,9 +77,15 @@ class PathResult:
 class Session:
     symbolic = True
 
-    def __init__(self, solver_timeout_ms=120000, seed=0):
+    def __init__(self, solver_timeout_ms=120000, seed=0, arith_solver=None):
         self.solver = z3.Solver()
         self.solver.set("timeout", solver_timeout_ms)
+        arith = os.environ.get("SYMNP_ARITH_SOLVER", "") or arith_solver
+        if arith:
+            # measured on the symplectic (XOR-heavy) obligations of the n=4 measurement harness: with arith.solver=2
+            # (z3's legacy arithmetic core) queries are decided in 4-9 s that the default configuration does not decide
+            # in 60 s; for the real-arithmetic (NRA) harnesses the default core is better, so this is per harness
+            z3.set_param("smt.arith.solver", int(arith))
         if seed:
             self.solver.set("random_seed", seed % (2**30))
         self.vars = {}  # name -> (kind, z3 const)
@@ -355,6 +361,14 @@ class Session:
                 raise PathAbort("violation", inconclusive=False)
             return False
         self.obligations.append(Obl(name, "unknown", detail=self.solver.reason_unknown(), t=time.time() - t))
+        dump = os.environ.get("SYMNP_DUMP_UNKNOWN")
+        if dump:  # debugging aid: keep the query the solver could not decide
+            try:
+                os.makedirs(dump, exist_ok=True)
+                with open(os.path.join(dump, f"unknown_{os.getpid()}_{len(self.obligations)}.smt2"), "w") as fh:
+                    fh.write(self.smt2_of(claim))
+            except Exception:
+                pass
         return None
 
     def prove_all(self, name, claims):
@@ -775,7 +789,7 @@ def _dfs(S, harness, spec, stack, totals, max_paths=None, deadline=None, stop_on
 
 
 def _make_session(harness, seed, solver_timeout_ms):
-    S = Session(solver_timeout_ms=solver_timeout_ms, seed=seed)
+    S = Session(solver_timeout_ms=solver_timeout_ms, seed=seed, arith_solver=getattr(harness, "arith_solver", None))
     with S:
         spec = harness.declare(S)
     S.declared = True
